@@ -5,6 +5,7 @@
 // operand-fit predicates (no 64-bit wrap, no negative lazy subtraction, 32-bit multiplier operands)
 // are evaluated on the values the library actually produced.
 #include "q120h.h"
+#include "ops.h"
 #include <pthread.h>
 
 typedef struct {
@@ -456,4 +457,9 @@ void run_C04(void) {
     q120_del_ntt_bb_precomp(T_NTT[k]);
     q120_del_intt_bb_precomp(T_INTT[k]);
   }
+  // modules / tables created, used and destroyed in random order, several alive at once
+  for (unsigned rep = 0; rep < (G.thorough ? 240u : 24u); rep++)
+    ops_lifecycle_case("C04 objects", LKM_NTT | LKM_INTT | LKM_BBC | LKM_BAA | LKM_BBB, (rep % 4) == 3 ? DISP_GENERIC : DISP_NATIVE, 160, 0, rep, "lifecycle_uses");
+  for (unsigned rep = 0; rep < (G.thorough ? 12u : 6u); rep++)
+    ops_lifecycle_case("C04 objects", LKM_BBC | LKM_BAA | LKM_BBB, DISP_NATIVE, 0, (G.thorough && rep < 3) ? 66000 : 300 + 57 * (int)rep, rep, "lifecycle_uses");
 }
